@@ -206,6 +206,20 @@ def run(chk):
         ok = any(pol and "can_add_final_throughput_sample" in u(t) for t, pol in gs) and g.dominated_by_nodes(g.node_of(fin_out[0]), [Lh]) and \
             not g.path_exists(g.node_of(fin_out[0]), Lh)
     chk.ob("O6.3", "final-sample rule after the loop", ok, fin_out[0] if fin_out else ctt, "")
+    if fin_out:
+        from sa import pat
+        extra = [u(f_) for f_ in pat.fact_nodes(fin_out[0]) if not ("can_add_final_throughput_sample" in u(f_) and isinstance(f_, ast.Call)) and not pat.is_(f_, "V_x is not None")]
+        chk.ob("O6.3", "the final-sample rule depends on nothing but the per-task predicate (and a sample having been seen)", not extra, fin_out[0],
+               "" if not extra else f"additional condition(s) {extra}: a task whose pending samples carry 0 ops, or whose count did not grow, gets no value of its sample type",
+               key=f"{_D}:calculate_task_throughput:final-rule-guards")
+    fa_ = sm.get("can_add_final_throughput_sample")
+    r_ = [n for n in walk_body(fa_) if isinstance(n, ast.Return)] if fa_ is not None else []
+    if len(r_) == 1:
+        from sa.cfg import conjuncts
+        from sa import pat
+        cj = conjuncts(r_[0].value)
+        ok = len(cj) == 2 and any(pat.is_(c, "self.interval > 0") for c in cj) and any(pat.is_(c, "not self.has_samples_in_sample_type") for c in cj)
+        chk.ob("O6.3", "predicate == positive elapsed time and no value of the current sample type yet", ok, fa_, u(r_[0].value), key=f"{_D}:TaskStats.can_add_final_throughput_sample:exact")
     fa = sm.get("can_add_final_throughput_sample")
     rets = [n for n in walk_body(fa) if isinstance(n, ast.Return)]
     ok = len(rets) == 1 and any(u(v) == "not self.has_samples_in_sample_type" for v in getattr(rets[0].value, "values", []))
